@@ -49,11 +49,10 @@ fn frontier(c: &Chitchat, id: &ChitchatId) -> Option<(u64, u64, u64)> { c.node_s
 // ---------------------------------------------------------------------------------------------
 // report_heartbeat: C11 (integer part), C03 (heartbeat only raised, never above a digest value), C05 (own id
 // ignored), C12 (re-creation guard after garbage collection)
-fn lib_report_heartbeat() {
+fn lib_report_heartbeat(situation: u8) {
     let mut c = mk_chitchat(3600, false, false);
     let x = xid();
-    let situation: u8 = kani::any();       // 0 absent, 1 present, 2 remembered as garbage collected, 3 = the node's own id
-    kani::assume(situation < 4);
+    // situation (shape): 0 absent, 1 present, 2 remembered as garbage collected, 3 = the node's own id
     let h0: u64 = kani::any();
     let h: u64 = kani::any();
     let target = if situation == 3 { sid() } else { xid() };
